@@ -8,9 +8,11 @@ package main
 
 import (
 	"context"
+	"crypto/tls"
 	"encoding/json"
 	"flag"
 	"fmt"
+	"net"
 	"net/http"
 	"net/http/httptest"
 	"net/url"
@@ -18,6 +20,7 @@ import (
 	"strconv"
 	"strings"
 	"sync"
+	"sync/atomic"
 	"time"
 
 	"github.com/gorilla/websocket"
@@ -79,6 +82,25 @@ type Case struct {
 	Skipped bool      `json:"skipped,omitempty"` // not run: the stream was stopped after repeated hangs
 	// silent stream: rounds of "a peer that reads and never answers is kicked"
 	Silent []SilentObs `json:"silent,omitempty"`
+	// front stream: rounds of "a front connection's dial is refused by a live endpoint"
+	Front []FrontObs `json:"front,omitempty"`
+	Slow  bool       `json:"slow,omitempty"` // front stream: the last round is the accept-timeout one (10 s)
+}
+
+// FrontObs is one round of the front stream: a live endpoint answers the dial
+// of a front connection with an error (a remote error); afterwards the name
+// is looked up, the endpoint is probed, and a later front connection is made.
+type FrontObs struct {
+	Round       int    `json:"round"`
+	How         string `json:"how"`          // side-refused (the endpoint's side dial fails) | accept-timeout (full accept backlog, 10 s)
+	Refused     int    `json:"refused"`      // front connections the proxy closed because the dial failed
+	After       string `json:"after"`        // what the name resolves to after the refused dial(s): live | none | other
+	Alive       bool   `json:"alive"`        // the endpoint still answers a Hello
+	LaterServed bool   `json:"later_served"` // a later front connection reached the endpoint's Accept
+	Final       string `json:"final"`        // after the endpoint has ended
+	Notes       []Note `json:"notes"`        // before the endpoint is closed
+	NotesEnd    []Note `json:"notes_end"`
+	Hang        string `json:"hang,omitempty"`
 }
 
 // SilentObs is one round of the silent stream: k connections under one name
@@ -919,6 +941,225 @@ func runRace(c *Case, tap *rpcx.LogTap) {
 	}
 }
 
+// runFront: registry changes caused by the FRONT path.  A live endpoint
+// answers a front connection's dial with an error; that must not touch the
+// registry.
+func runFront(c *Case) {
+	var mu sync.Mutex
+	var notes []Note
+	var sess int64
+	arrived := make(chan *sniproxy.VerifClient, 8)
+	srv := sniproxy.NewServer(&sniproxy.ServerConfig{
+		Lookup: func(domain string) (*sniproxy.Dest, error) {
+			if domain == "site.com" {
+				return &sniproxy.Dest{Name: names[0]}, nil
+			}
+			return nil, fmt.Errorf("bad domain %q", domain)
+		},
+		OnConnect: func(user string) int64 {
+			mu.Lock()
+			defer mu.Unlock()
+			sess++
+			notes = append(notes, Note{K: "connect", N: nameIndex(user), S: sess})
+			return sess
+		},
+		OnDisconnect: func(user string, s int64) {
+			mu.Lock()
+			defer mu.Unlock()
+			notes = append(notes, Note{K: "disconnect", N: nameIndex(user), S: s})
+		},
+	})
+	srv.VerifSetEndpointCallback(func(name string, cl *sniproxy.VerifClient) { arrived <- cl })
+	ended := make(chan struct{}, 8)
+	ts := httptest.NewServer(aries.Func(func(ac *aries.C) error {
+		ac.User = ac.Path
+		_, isSide := ac.Req.URL.Query()["side"]
+		err := srv.ServeBack(ac)
+		if !isSide {
+			ended <- struct{}{}
+		}
+		return err
+	}))
+	defer ts.Close()
+	lis, err := net.ListenTCP("tcp", &net.TCPAddr{IP: net.IPv4(127, 0, 0, 1)})
+	if err != nil {
+		c.Crash = "listen: " + err.Error()
+		return
+	}
+	defer lis.Close()
+	fctx, fcancel := context.WithCancel(context.Background())
+	defer fcancel()
+	go srv.ServeFront(fctx, lis)
+	// a front connection: sends a ClientHello for site.com; closed reports
+	// that the proxy has closed it
+	front := func() (net.Conn, chan struct{}) {
+		fc, err := net.DialTimeout("tcp", lis.Addr().String(), waitBound)
+		if err != nil {
+			return nil, nil
+		}
+		closed := make(chan struct{})
+		go func() {
+			tls.Client(fc, &tls.Config{ServerName: "site.com", InsecureSkipVerify: true}).Handshake()
+			close(closed)
+		}()
+		return fc, closed
+	}
+	snapshot := func() []Note {
+		mu.Lock()
+		defer mu.Unlock()
+		return append([]Note{}, notes...)
+	}
+	for round := 0; round < c.Rounds; round++ {
+		o := FrontObs{Round: round, How: "side-refused"}
+		if c.Slow && round == c.Rounds-1 {
+			o.How = "accept-timeout"
+		}
+		mu.Lock()
+		notes = nil
+		mu.Unlock()
+		var failSide atomic.Bool
+		var dials atomic.Int32
+		opt := &sniproxy.DialOption{Path: names[0], WithoutTLS: true}
+		if o.How == "side-refused" {
+			// a side-mode endpoint whose own dialer cannot reach the proxy for side
+			// connections while failSide is set: its answer to the dial request is an error
+			failSide.Store(true)
+			opt.TunnelOptions = &sniproxy.Options{Siding: true}
+			opt.Dialer = &websocket.Dialer{
+				NetDialContext: func(ctx context.Context, network, addr string) (net.Conn, error) {
+					if dials.Add(1) > 1 && failSide.Load() {
+						return nil, fmt.Errorf("no route to the proxy for side connections")
+					}
+					return (&net.Dialer{}).DialContext(ctx, network, addr)
+				},
+			}
+		}
+		ep, err := sniproxy.Dial(context.Background(), &sniproxy.StaticRouter{Host: ts.Listener.Addr().String()}, opt)
+		if err != nil {
+			o.Hang = "dial of the endpoint: " + err.Error()
+			c.Front = append(c.Front, o)
+			break
+		}
+		var live *sniproxy.VerifClient
+		select {
+		case live = <-arrived:
+		case <-time.After(waitBound):
+			o.Hang = "the endpoint's connection did not reach the server"
+		}
+		accepted := make(chan net.Conn, 16)
+		var fronts []net.Conn
+		if live != nil {
+			nrefuse := 1 + round%2
+			if o.How == "accept-timeout" {
+				// nobody accepts: of eleven front connections ten fill the accept
+				// backlog and one -- whichever arrives last -- is refused when the
+				// endpoint's accept timer (10 s) fires
+				any := make(chan struct{}, 16)
+				for j := 0; j < 11; j++ {
+					fc, closed := front()
+					if fc == nil {
+						o.Hang = "front dial failed"
+						break
+					}
+					fronts = append(fronts, fc)
+					go func() { <-closed; any <- struct{}{} }()
+				}
+				select {
+				case <-any:
+					o.Refused++
+				case <-time.After(waitBound + 5*time.Second):
+					o.Hang = "the proxy did not close the front connection whose dial the endpoint had refused (accept timeout)"
+				}
+				nrefuse = 0
+			}
+			for j := 0; j < nrefuse && o.Hang == ""; j++ {
+				fc, closed := front()
+				if fc == nil {
+					o.Hang = "front dial failed"
+					break
+				}
+				fronts = append(fronts, fc)
+				select {
+				case <-closed:
+					o.Refused++
+				case <-time.After(waitBound + 5*time.Second):
+					o.Hang = "the proxy did not close a front connection whose dial the endpoint had refused"
+				}
+			}
+			cl := srv.VerifLookup(names[0])
+			switch {
+			case cl == nil:
+				o.After = "none"
+			case cl.Same(live):
+				o.After = "live"
+			default:
+				o.After = "other"
+			}
+			ctx, cancel := context.WithTimeout(context.Background(), waitBound)
+			msg, err := live.Hello(ctx, "ping")
+			cancel()
+			o.Alive = err == nil && msg == "ping"
+			o.Notes = snapshot()
+			// a later front connection, now that the endpoint can take it
+			failSide.Store(false)
+			go func() {
+				for {
+					conn, err := ep.Accept()
+					if err != nil {
+						return
+					}
+					accepted <- conn
+				}
+			}()
+			if o.How == "accept-timeout" {
+				for j := 0; j < 10; j++ { // the backlog drains
+					select {
+					case conn := <-accepted:
+						conn.Close()
+					case <-time.After(waitBound):
+					}
+				}
+			}
+			fc, closed := front()
+			if fc != nil {
+				fronts = append(fronts, fc)
+				select {
+				case conn := <-accepted:
+					o.LaterServed = true
+					conn.Close()
+				case <-closed:
+				case <-time.After(waitBound):
+				}
+			}
+		}
+		for _, fc := range fronts {
+			if fc != nil {
+				fc.Close()
+			}
+		}
+		go ep.Close()
+		if live != nil {
+			select {
+			case <-ended:
+			case <-time.After(waitBound):
+				if o.Hang == "" {
+					o.Hang = "ServeBack of the endpoint did not return after its Close"
+				}
+			}
+			o.Final = "none"
+			if cl := srv.VerifLookup(names[0]); cl != nil {
+				o.Final = "still"
+			}
+		}
+		o.NotesEnd = snapshot()
+		c.Front = append(c.Front, o)
+		if o.Hang != "" {
+			c.Hang = "front: " + o.Hang
+			break
+		}
+	}
+}
+
 // runSilent: the old peer of a kick is unresponsive but connected.
 func runSilent(c *Case) {
 	type conn struct {
@@ -1094,6 +1335,8 @@ func runHistory(c *Case, seed uint64) {
 		runRace(c, theTap)
 	} else if c.Stream == "silent" {
 		runSilent(c)
+	} else if c.Stream == "front" {
+		runFront(c)
 	} else if c.Stream == "free" {
 		runFree(c, seed+uint64(c.I))
 	} else {
@@ -1129,6 +1372,8 @@ func main() {
 	nfree := flag.Int("free", 10, "number of free-running histories")
 	nrace := flag.Int("race", 3, "number of race histories (10 rounds each)")
 	nsilent := flag.Int("silent", 1, "number of silent-peer histories (2 rounds each)")
+	nfront := flag.Int("front", 1, "number of front-path histories (3 rounds each)")
+	slow := flag.Int("slow", 0, "1: front histories may end with the accept-timeout round (10 s)")
 	script := flag.String("script", "", "JSON file with a list of cases (stream, steps) to run instead")
 	child := flag.Bool("child", false, "child mode")
 	from := flag.Int("from", 0, "first case (child)")
@@ -1137,13 +1382,16 @@ func main() {
 	var scripted []Case
 	if *script != "" {
 		scripted = loadScript(*script)
-		*n, *nfree, *nrace, *nsilent = len(scripted), 0, 0, 0
+		*n, *nfree, *nrace, *nsilent, *nfront = len(scripted), 0, 0, 0, 0
 	}
-	total := *n + *nfree + *nrace + *nsilent
+	total := *n + *nfree + *nrace + *nsilent + *nfront
 	gen := func(i int) Case {
 		if scripted != nil {
 			x := scripted[i]
-			return Case{I: i, Stream: x.Stream, Steps: x.Steps, Rounds: x.Rounds, Seed: x.Seed}
+			return Case{I: i, Stream: x.Stream, Steps: x.Steps, Rounds: x.Rounds, Seed: x.Seed, Slow: x.Slow}
+		}
+		if i >= *n+*nfree+*nrace+*nsilent {
+			return Case{I: i, Stream: "front", Steps: []Step{}, Rounds: 3, Seed: *seed, Slow: *slow == 1}
 		}
 		if i >= *n+*nfree+*nrace {
 			return Case{I: i, Stream: "silent", Steps: []Step{}, Rounds: 2, Seed: *seed}
@@ -1183,7 +1431,8 @@ func main() {
 		return
 	}
 	args := []string{"-seed", strconv.FormatUint(*seed, 10), "-n", strconv.Itoa(*n), "-free", strconv.Itoa(*nfree),
-		"-race", strconv.Itoa(*nrace), "-silent", strconv.Itoa(*nsilent)}
+		"-race", strconv.Itoa(*nrace), "-silent", strconv.Itoa(*nsilent), "-front", strconv.Itoa(*nfront),
+		"-slow", strconv.Itoa(*slow)}
 	if *script != "" {
 		args = append(args, "-script", *script)
 	}
